@@ -28,6 +28,10 @@ CHECKS = {
    technique="exhaustive fault enumeration: every valid program of the bounded universes x every token deletion, line join, separator removal and truncation point; reference parser decides the domain",
    text="For every enumerated valid program every single fault of the model is applied; corrupted texts that the reference ECMAScript parser rejects must make strict parsing report an error located no earlier than the last intact token. Each of the ~25 expect sites is reachable only by a specific corruption of a specific construct; enumerating programs x faults reaches all of them.",
    note="trusted: goja accept/reject, R-tok for token boundaries; domain restriction D7 (template after expression end = tagged template)"),
+ "C01": dict(cat="exploration", sec="4 C01",
+   technique="exhaustive input enumeration x output configurations, differential execution: source text vs every compiled output run by the goja engine in fresh realms with logging proxies",
+   text="Every program of the bounded universes (all loop-free token sequences <= n, print(E) for every expression chain, an executable statement family in every layout with <= k deviations) is compiled in every configuration of the tier and both source and output are executed; the observation (ordered log of calls, property accesses and conversions, completion kind and value) must coincide. Evaluation-order logging makes grouping, token fusion, semicolon policy and dropped/reordered tokens observable.",
+   note="trusted: goja engine (both sides), harness prelude; Function.prototype.toString neutralised (function source text is layout); interrupted runs give no verdict"),
  "C09": dict(cat="model_checking", sec="4 C09",
    technique="explicit-state exploration: all builder call histories <= depth 5/6 (stateless) + BFS with abstract-state dedup to depth 7/9, real SourceMapper vs list model, independent VLQ decoder",
    text="Every operation history up to the bound over a 25-call alphabet is executed on the real builder in lock-step with a reference model and the emitted mappings are decoded by an independent Source Map v3 decoder; every VLQ delta in [-2^20,2^20] is encoded through the public API and decoded. Exhaustive within the bound, which is where delta-reset, name carry-over and continuation-bit bugs live.",
